@@ -31,6 +31,10 @@ _offset_budget = {}
 def variants(sc, b):
     """base + (for fault-free-until-the-end behaviours without reactions) the terminal fault moved to every byte offset"""
     out = [('base', sc)]
+    if sessprop.sampled(sc, b, 5):
+        out.append(('wss', sessprop.via_tls(sc)))
+        out.append(('proxy', sessprop.via_proxy(sc)))
+        out.append(('wss-proxy', sessprop.via_proxy(sessprop.via_tls(sc))))
     steps = sc['conns'][0]['steps']
     stream = sc['conns'][0]['stream']
     if sc['react'] or not steps or steps[-1]['kind'] not in ('eof', 'error', 'boom') or not stream:
